@@ -61,6 +61,7 @@ class _TokFn(Contract):
 
 class NonNegFloat(_TokFn):
     target = "pyab_experiment.language.lexer:ExperimentLexer.NON_NEG_FLOAT"
+    props = ("C05", "C02", "C03", "C10")      # numeric literals are operands (C02) and weights (C03/C10) as well
 
     def requires(self, a):
         return [FLOAT_SYNTAX(z3.String("t.value"))]
@@ -77,6 +78,7 @@ class NonNegFloat(_TokFn):
 
 class NonNegInteger(_TokFn):
     target = "pyab_experiment.language.lexer:ExperimentLexer.NON_NEG_INTEGER"
+    props = ("C05", "C02", "C03", "C10")
 
     def requires(self, a):
         return [INT_SYNTAX(z3.String("t.value"))]
@@ -93,6 +95,7 @@ class NonNegInteger(_TokFn):
 
 class StringLiteral(_TokFn):
     target = "pyab_experiment.language.lexer:ExperimentLexer.STRING_LITERAL"
+    props = ("C05", "C02", "C12", "C13", "C15", "C09")      # salts, string operands and group names all pass through here
 
     def requires(self, a):
         return [z3.Length(z3.String("t.value")) >= 2]     # every STRING_LITERAL lexeme is quote + content + quote (rxvc)
